@@ -19,7 +19,14 @@
 //!   tap of a key that is only a part of some chord, a key that is in no chord, several taps, space,
 //!   punctuation, a rolled pair, a different chord), waits (shorter / longer than idle-reactivate-time)
 //!   and presses the keys of a follow-up chord of that line: what was typed in between stays on screen,
-//!   nothing of it is erased, the keys are what they are on their own.
+//!   nothing of it is erased, the keys are what they are on their own;
+//! * activation - soft reset in the same hold - pause - activation again: a top-level chord X activates
+//!   and, while its keys are still down, zippy gives up on the hold (held longer than the deadline the
+//!   activation restarted / a further key after which the held keys match nothing / a further key toward
+//!   a longer chord that is then abandoned); everything is released, the user pauses longer than
+//!   idle-reactivate-time (far below the 10 s watchdog) and types a chord Y (X again, a chord whose
+//!   expansion starts like X's, another chord): the earlier text stays, Y expands completely ("dayday",
+//!   "hi3hi"), nothing of the earlier hold is re-used or left unerased.
 //!
 //! Modifiers: every family is also driven with lsft, rsft or BOTH shift keys (either press order) held,
 //! the entry family also with altgr. With shift the text is compared exactly, not only ignoring case:
@@ -1716,13 +1723,153 @@ impl Check for C20Check {
                 }
             }
         }
+        // ---- activation - soft reset within the same hold - pause - activation again: a top-level chord X
+        // activates; while its keys are still down zippy gives up on the hold (the hold outlasts the
+        // deadline that the activation restarted / a further key makes the held keys match nothing / a
+        // further key goes toward a longer chord that is then abandoned); everything is released, the user
+        // pauses for longer than idle-reactivate-time (far less than the 10 s watchdog) and types a chord Y
+        // (X again, a chord whose expansion starts like X's, any other chord). Nothing of the earlier hold
+        // may leak into the new one: earlier text stays, Y expands as if typed alone.
+        {
+            let top = d.toplevel_sets();
+            let tops: Vec<&Entry> = d.entries.iter().filter(|e| e.chords.len() == 1 && e.chords[0].len() >= 2 && !e.out.is_empty()).collect();
+            let ycap = ctx.tier.sel(2, 4);
+            let idle = deadline; // idle-reactivate-time is configured equal to the deadline
+            for x in tops.iter() {
+                let xset: BTreeSet<char> = x.chords[0].iter().copied().collect();
+                for kind in ["hold-past-deadline", "stray-key", "abandoned-longer-chord"] {
+                    let mut xorder = x.chords[0].clone();
+                    rng.shuffle(&mut xorder);
+                    let xevs: Vec<(bool, char)> = xorder.iter().map(|k| (true, *k)).collect();
+                    let xw = walk_hold(&d, &xevs);
+                    if xw.followup_within_hold || xw.empty_node_after_activation || xw.chain_shared_prefix() {
+                        out.inc("soft_reset_in_hold_skipped_known_structure");
+                        continue;
+                    }
+                    // the further key pressed while X is held
+                    let extra: Option<char> = match kind {
+                        "hold-past-deadline" => None,
+                        _ => {
+                            let cands: Vec<char> = POOL
+                                .iter()
+                                .chain(FPOOL.iter())
+                                .chain(FOREIGN.iter())
+                                .copied()
+                                .filter(|k| !xset.contains(k))
+                                .filter(|k| {
+                                    let mut s = xset.clone();
+                                    s.insert(*k);
+                                    // the held keys must neither be a node themselves nor a follow-up chord of
+                                    // something completed in this hold
+                                    if d.out_of(&[s.clone()]).is_some() || xw.chain_sets.iter().any(|q| d.out_of(&[q.clone(), s.clone()]).is_some()) {
+                                        return false;
+                                    }
+                                    let toward_longer = top.iter().any(|t| s.is_subset(t));
+                                    if kind == "stray-key" { !toward_longer } else { toward_longer }
+                                })
+                                .collect();
+                            if cands.is_empty() {
+                                out.inc(&format!("soft_reset_in_hold_no_candidate_key:{kind}"));
+                                continue;
+                            }
+                            Some(*rng.pick(&cands))
+                        }
+                    };
+                    // the chords typed after the pause: X again, then chords whose expansion starts with the
+                    // same character as X's, then any other
+                    let mut ys: Vec<&Entry> = vec![*x];
+                    {
+                        let mut shared: Vec<&Entry> = tops.iter().copied().filter(|y| y.path() != x.path() && y.out.chars().next() == x.out.chars().next()).collect();
+                        let mut other: Vec<&Entry> = tops.iter().copied().filter(|y| y.path() != x.path() && y.out.chars().next() != x.out.chars().next()).collect();
+                        rng.shuffle(&mut shared);
+                        rng.shuffle(&mut other);
+                        ys.extend(shared);
+                        ys.extend(other);
+                        ys.truncate(ycap);
+                    }
+                    for y in ys {
+                        let mut yorder = y.chords[0].clone();
+                        rng.shuffle(&mut yorder);
+                        let yevs: Vec<(bool, char)> = yorder.iter().map(|k| (true, *k)).collect();
+                        let yw = walk_hold(&d, &yevs);
+                        if yw.followup_within_hold || yw.empty_node_after_activation || yw.chain_shared_prefix() {
+                            out.inc("soft_reset_in_hold_skipped_known_structure");
+                            continue;
+                        }
+                        let held = if rng.chance(1, 5) { pick_shift(&mut rng) } else { Held::None };
+                        let tail = *rng.pick(&[Tail::None, Tail::None, Tail::Letter, Tail::Dot]);
+                        let mut h = vec![Ev::T(3)];
+                        push_presses(&mut h, &xorder, &[1, 2, 3], &mut rng);
+                        let mut down: Vec<char> = xorder.clone();
+                        match extra {
+                            None => h.push(Ev::T(deadline + *rng.pick(&[5u32, 20, 60]))),
+                            Some(k) => {
+                                h.push(Ev::T(*rng.pick(&[2u32, 4, 7])));
+                                h.push(Ev::P(osc(&keyname(k))));
+                                h.push(Ev::T(*rng.pick(&[2u32, 5, 9])));
+                                down.push(k);
+                            }
+                        }
+                        push_releases(&mut h, &down, &[0, 1, 2], &mut rng);
+                        let pause = idle + *rng.pick(&[10u32, 20, 150]);
+                        h.push(Ev::T(pause));
+                        held.push_press(&mut h, &mut rng);
+                        push_presses(&mut h, &yorder, &[1, 1, 2, 3], &mut rng);
+                        h.push(Ev::T(*rng.pick(&[2u32, 5, 8])));
+                        push_releases(&mut h, &yorder, &[0, 1, 2], &mut rng);
+                        h.push(Ev::T(4));
+                        let mod_at = h.len();
+                        held.push_release(&mut h, &mut rng);
+                        h.push(Ev::T(2));
+                        push_tail(&mut h, tail);
+                        h.push(Ev::T(10));
+                        let Ok((trace, mods_mid)) = run(&cfg, &file, &h, Some(mod_at)) else { continue };
+                        let (screen, down_end) = replay(&trace, &km);
+                        let got = text(&screen);
+                        let case_judged = held.shifted() && case_exact_judged(yw.prev_out(), &y.out);
+                        let mut first = expected_entry(&x.out, smart, Tail::None);
+                        if let Some(k) = extra {
+                            first.push(k);
+                        }
+                        let second = if case_judged { expected_entry(&cap_first(&y.out), smart, tail) } else { expected_entry(&y.out, smart, tail) };
+                        let want = format!("{first}{}", &second[SENTINEL.len()..]);
+                        let same_nocase = got.to_lowercase() == want.to_lowercase();
+                        let same = if held.shifted() && !case_judged { same_nocase } else { got == want };
+                        let mid_mods = mods_down(&mods_mid.unwrap_or_default());
+                        let mods_ok = mid_mods == held.os_names();
+                        let common = x.out.chars().zip(y.out.chars()).take_while(|(a, b)| a == b).count();
+                        let relation = if y.path() == x.path() { "same-chord" } else if common > 0 { "shared-output-prefix" } else { "other-chord" };
+                        out.inc("soft_reset_in_hold_scenarios");
+                        out.tag(format!("soft-reset-in-hold:{kind}:{relation}:k{}:k{}:{:?}:{:?}:{}", xset.len(), yorder.len(), held, tail, smart.name()));
+                        if same && down_end.is_empty() && mods_ok {
+                            out.inc("chord_after_soft_reset_in_hold_exact");
+                            out.inc(&format!("chord_after_soft_reset_in_hold_exact:{kind}"));
+                            out.inc(&format!("chord_after_soft_reset_in_hold_exact:{relation}"));
+                        } else {
+                            let wj = json!({"config": cfg, "files": {"dict.txt": file}, "first_entry": x.line(), "first_press_order": xorder.iter().collect::<String>(), "soft_reset_by": kind, "further_key_in_hold": extra.map(|k| k.to_string()), "pause_ms": pause, "entry": y.line(), "press_order": yorder.iter().collect::<String>(), "held_modifier": format!("{held:?}"),
+                                "history": render_hist(&h), "observed": {"text": got, "keys_down_at_end": down_end, "modifiers_down_before_their_release": mid_mods, "os_stream": trace.iter().map(|o| o.short()).collect::<Vec<_>>()}, "expected": {"text": want, "case_insensitive": held.shifted() && !case_judged, "keys_down_at_end": [], "modifiers_down_before_their_release": held.os_names()}});
+                            let sig = if !same && case_judged && same_nocase {
+                                format!("C20:wrong-case-with-shift-held:{}:chord-after-soft-reset-in-hold", held.name())
+                            } else if !same {
+                                format!("C20:wrong-text:chord-after-soft-reset-in-hold:{kind}:{relation}")
+                            } else if !mods_ok {
+                                "C20:modifier-not-restored".to_string()
+                            } else {
+                                "C20:keys-left-down".to_string()
+                            };
+                            out.violate(sig, format!("{:?} completed ({:?}), zippy gives up in the same hold ({kind}{}), all released, {pause} ms pause (idle-reactivate-time {idle}), then the chord {:?} (press order {:?}, {:?} held, smart-space {}): the application shows {got:?} instead of {want:?}", x.line(), xorder.iter().collect::<String>(), extra.map(|k| format!(" {k:?}")).unwrap_or_default(), y.line(), yorder.iter().collect::<String>(), held, smart.name()), wj);
+                        }
+                    }
+                }
+            }
+        }
         if idx % 200 == 30 || idx == 0 {
-            out.sample = Some(json!({"idx": idx, "dictionary": file, "smart_space": smart.name(), "deadline": deadline}));
+            out.sample =Some(json!({"idx": idx, "dictionary": file, "smart_space": smart.name(), "deadline": deadline}));
         }
         out
     }
     fn rule(&self) -> String {
-        "case = one dictionary (45 cases with fixed dictionaries that are the same for every seed: the guide's / the tests' samples and the known-finding witnesses; then generated: 2-4 top-level chords of 2-4 keys over a-h, chords extending other chords by one or two keys up to three levels with and without a shared output prefix, follow-up chords of 1-3 keys up to depth 3 incl. keys that occur in no top-level chord, in 2 of 5 dictionaries a follow-up chord that strictly contains a top-level chord, nodes with empty output, upper/lower-case outputs with inner and trailing spaces) x one smart-space setting (idx mod 3) x deadline 30/500. Every entry is typed with every permutation of its last chord's keys (capped at 24 quick / 120 thorough; earlier chords in random order), gaps 1-3 ms, without modifier and with lsft / rsft / both shift keys (either press order, every third order) / ralt held (scenarios that hit known finding #18 are sampled: no modifier, every second order), followed by nothing / a foreign letter / a dot / both; then 4-8 random non-chord typings (taps, rolled pairs that are no subset of a chord, shift, punctuation, pauses), one too-slow chord, for every entry that extends another entry: the smaller chord first, the extending keys deadline-5 ms (must extend: an activation restarts the deadline) and deadline+5 ms (must pass through) after it, and every follow-up line with deadline+20 ms between its chords; AFTER-LINE family: every line that has follow-up lines (plus one that has none) is completed and fully released, then (3 ms / 8 ms / deadline+20 ms later) every top-level chord is typed in up to 4 (thorough 12) press orders, sometimes with lsft / rsft / both shifts, with a tail - orders whose keys complete a follow-up chord of the earlier line on the way are skipped (the follow-up is meant), the counter toplevel_chord_part_of_pending_followup_exact counts chords that are a strict part of a pending multi-key follow-up chord (the generator adds such a follow-up to 2 of 5 dictionaries); PARTIAL-RELEASE family: for every pair of top-level chords S < L (the generator extends chords by one or by two keys): S in random order, a random non-empty proper subset of S released, then the released keys and the keys of L-S in random order (6 draws per pair, thorough 16), all within the deadline, sometimes with lsft / rsft / both shifts, with a tail; classified by what is completed on the way (direct / via another chord / S a second time / >=3 completions with shared first character); FOLLOW-UP-AFTER-TYPING family: every line that has follow-up lines is completed and fully released, then one of {lone tap of a key that is a strict part of a top-level chord (held 2 / 5 / deadline+10 ms), tap of a key that is in no chord, 2-4 such taps, space, one of . , ;, a rolled pair that is in no chord, a different top-level chord typed on its own} follows, then a pause of idle-reactivate-time+20 ms (3 of 4) or 6 ms, then the keys of a follow-up chord of the line (up to 3 follow-up chords per line, thorough 6; random order) - expected: earlier expansion + what was typed + the keys as plain typing (or, after the idle time, their own top-level expansion if they are exactly a top-level chord); follow-up chords whose keys complete other top-level nodes on the way are skipped. With shift held the text is compared exactly (first character capitalised, rest as configured) in all families, see assumptions. Non-trivial = entry scenario replayed through the text-buffer model; distinct = (shape, depth, chord size, modifier, tail, smart-space).".into()
+        "case = one dictionary (45 cases with fixed dictionaries that are the same for every seed: the guide's / the tests' samples and the known-finding witnesses; then generated: 2-4 top-level chords of 2-4 keys over a-h, chords extending other chords by one or two keys up to three levels with and without a shared output prefix, follow-up chords of 1-3 keys up to depth 3 incl. keys that occur in no top-level chord, in 2 of 5 dictionaries a follow-up chord that strictly contains a top-level chord, nodes with empty output, upper/lower-case outputs with inner and trailing spaces) x one smart-space setting (idx mod 3) x deadline 30/500. Every entry is typed with every permutation of its last chord's keys (capped at 24 quick / 120 thorough; earlier chords in random order), gaps 1-3 ms, without modifier and with lsft / rsft / both shift keys (either press order, every third order) / ralt held (scenarios that hit known finding #18 are sampled: no modifier, every second order), followed by nothing / a foreign letter / a dot / both; then 4-8 random non-chord typings (taps, rolled pairs that are no subset of a chord, shift, punctuation, pauses), one too-slow chord, for every entry that extends another entry: the smaller chord first, the extending keys deadline-5 ms (must extend: an activation restarts the deadline) and deadline+5 ms (must pass through) after it, and every follow-up line with deadline+20 ms between its chords; AFTER-LINE family: every line that has follow-up lines (plus one that has none) is completed and fully released, then (3 ms / 8 ms / deadline+20 ms later) every top-level chord is typed in up to 4 (thorough 12) press orders, sometimes with lsft / rsft / both shifts, with a tail - orders whose keys complete a follow-up chord of the earlier line on the way are skipped (the follow-up is meant), the counter toplevel_chord_part_of_pending_followup_exact counts chords that are a strict part of a pending multi-key follow-up chord (the generator adds such a follow-up to 2 of 5 dictionaries); PARTIAL-RELEASE family: for every pair of top-level chords S < L (the generator extends chords by one or by two keys): S in random order, a random non-empty proper subset of S released, then the released keys and the keys of L-S in random order (6 draws per pair, thorough 16), all within the deadline, sometimes with lsft / rsft / both shifts, with a tail; classified by what is completed on the way (direct / via another chord / S a second time / >=3 completions with shared first character); FOLLOW-UP-AFTER-TYPING family: every line that has follow-up lines is completed and fully released, then one of {lone tap of a key that is a strict part of a top-level chord (held 2 / 5 / deadline+10 ms), tap of a key that is in no chord, 2-4 such taps, space, one of . , ;, a rolled pair that is in no chord, a different top-level chord typed on its own} follows, then a pause of idle-reactivate-time+20 ms (3 of 4) or 6 ms, then the keys of a follow-up chord of the line (up to 3 follow-up chords per line, thorough 6; random order) - expected: earlier expansion + what was typed + the keys as plain typing (or, after the idle time, their own top-level expansion if they are exactly a top-level chord); follow-up chords whose keys complete other top-level nodes on the way are skipped. SOFT-RESET-IN-HOLD family: every top-level chord X of >= 2 keys with an output (random press order) x 3 ways in which zippy gives up while X is still held {all keys held deadline+5/20/60 ms after the activation; 2-7 ms after the activation a further key k (from a-h, m-o, x z q) such that X+k is contained in no top-level chord; a further key k such that X+k is a strict part of a longer top-level chord that is never completed - X+k is never itself a node or a follow-up chord of something completed in the hold}, all keys released in random order, pause idle-reactivate-time + 10/20/150 ms, then up to 2 (thorough 4) chords Y: X itself, then chords whose expansion starts with the same character as X's, then others (random press order, 1 of 5 with lsft / rsft / both shifts, with a tail) - expected: X's expansion (+ smart space) + k + Y's expansion (+ smart space) + tail; counters per way and per relation of Y to X (same-chord / shared-output-prefix / other-chord). With shift held the text is compared exactly (first character capitalised, rest as configured) in all families, see assumptions. Non-trivial = entry scenario replayed through the text-buffer model; distinct = (shape, depth, chord size, modifier, tail, smart-space).".into()
     }
     fn assumptions(&self) -> Vec<String> {
         vec![
@@ -1735,6 +1882,7 @@ impl Check for C20Check {
             "chord keys are released before the next chord of a line and before further typing; the only partial releases are those of the partial-release family (one release phase after the first activation, no release between the later presses)".into(),
             "after-line family: an order in which the keys pressed so far are exactly a follow-up chord of the line completed before is not judged (the follow-up is meant); a chord that is only a strict part of a pending follow-up chord IS judged: pressing exactly the keys of a top-level chord and releasing them must expand that chord".into(),
             "partial-release family: top-level chords only (inside follow-up chords the sibling-follow-up finding applies); scenarios in which the held keys are exactly a follow-up chord of something completed in the same hold, or reach an output-less node after an activation, are not judged".into(),
+            "soft-reset-in-hold family: only the pause LONGER than idle-reactivate-time is judged (the guide says zippy is re-enabled after that time; whether and for how long it is disabled after a stray key or a long hold is not stated, so a second chord typed sooner is not judged); the pause stays far below the 10 s after which the implementation resets itself; top-level chords only, a follow-up chord after the interrupted hold is not judged (the guide does not say whether the follow-up survives); the further key never makes the held keys a chord, a node or a follow-up chord of something completed in the hold; expected text of the interrupted hold = X's expansion (+ smart space) followed by the further key as plain typing".into(),
             "the known classes 'followup-part-not-in-toplevel-chord' and 'longer-chord-after-partial-release:chord-completed-again' cover only the outcome their defect produces where that outcome is simple to state (earlier text + literal keys; stale erase counter); the prediction is used for nothing else".into(),
         ]
     }
@@ -1773,6 +1921,13 @@ impl Check for C20Check {
             ("followup_after_typing_exact:punctuation:after-idle", 1_500),
             ("followup_after_typing_exact:rolled-pair:after-idle", 1_000),
             ("followup_after_typing_exact:other-chord:after-idle", 800),
+            ("chord_after_soft_reset_in_hold_exact", 20_000),
+            ("chord_after_soft_reset_in_hold_exact:hold-past-deadline", 5_000),
+            ("chord_after_soft_reset_in_hold_exact:stray-key", 5_000),
+            ("chord_after_soft_reset_in_hold_exact:abandoned-longer-chord", 1_000),
+            ("chord_after_soft_reset_in_hold_exact:same-chord", 8_000),
+            ("chord_after_soft_reset_in_hold_exact:shared-output-prefix", 500),
+            ("chord_after_soft_reset_in_hold_exact:other-chord", 3_000),
         ]
     }
 }
